@@ -296,6 +296,7 @@ type pendingTask struct {
 type cluster struct {
 	lastTN    tnConn
 	tearingDown bool // under holdMu
+	strictStability bool // the clock-based stability oracle judges (set inside template leaderconnclosed)
 	lastHeard map[uint64]heardRec
 	initNodes map[uint64]Node // the initial configuration (init action)
 	net     *simNet
